@@ -452,6 +452,15 @@ def _run_slope(spec):
     # points of implicit methods feel the Newton tolerance; a method of lower order q < p has ALL pair slopes ~ q+1
     pair = [float(np.log(pts[i][1] / pts[i + 1][1]) / np.log(pts[i][0] / pts[i + 1][0])) for i in range(len(pts) - 1)]
     slope = max(pair)
+    if slope < p + 1 - 0.6 and len(pts) < len(hs):
+        # a ladder that is still pre-asymptotic at its coarse end and whose finest point sits between 4x and 50x the noise floor (Gauss-Legendre 6
+        # at h = 0.5 .. 0.0625: pair slopes 4.75, 6.18, 6.68): the finest pair is admitted (it can only raise the maximum; noise <= 25% of that
+        # point moves its slope by <= 0.4, a method of order < p stays below p + 0.4)
+        pts4 = [(abs(h), e) for h, e in zip(hs, errs) if e > floor * 4]
+        pair4 = [float(np.log(pts4[i][1] / pts4[i + 1][1]) / np.log(pts4[i][0] / pts4[i + 1][0])) for i in range(len(pts4) - 1)]
+        if pair4 and max(pair4) > slope:
+            slope = max(pair4)
+            rec.bump("slope_decided_by_a_point_near_the_floor")
     rec.bump("slope_probes")
     rec.nontrivial = True
     rec.worst("slope_deficit", (p + 1) - slope)
